@@ -74,6 +74,8 @@ class Scope:
         self.steer = False
         self.state: dict[str, str] = {}  # name -> 'shared' | 'burned'
         self.steered = 0
+        self.type_of: dict[str, str] = {}  # declared input -> explicit type
+        self.avoid_three_same = False  # open finding F-three-same
 
     def fresh(self, draw, prefix: str) -> str:
         i = 0
@@ -185,14 +187,29 @@ class ExprGen:
             return Bin(draw(st.sampled_from(CMPS)), l, r)
         op = draw(st.sampled_from(["&&", "||"]))
         n = draw(st.integers(2, 3))
-        e = self.simple_comparison(draw)
+        seen = {}
+        e = self.simple_comparison(draw, seen)
         for _ in range(n - 1):
-            e = Bin(op, e, self.simple_comparison(draw))
+            e = Bin(op, e, self.simple_comparison(draw, seen))
         return e
 
-    def simple_comparison(self, draw):
-        l = self.leaf(draw, want_signal=True, excl=True)
-        r = self.leaf(draw, want_signal=True, excl=True) if draw(st.integers(0, 3)) == 0 else self.const_operand(draw)
+    def simple_comparison(self, draw, seen=None):
+        """`seen` collects the explicit types used so far in one folded &&/|| chain: with the open finding
+        F-three-same active, a third distinct source of one type is replaced by a constant."""
+        def leaf():
+            x = self.leaf(draw, want_signal=True, excl=True)
+            if seen is not None and self.s.avoid_three_same and isinstance(x, Ref):
+                t = self.s.type_of.get(x.name, "~" + x.name)
+                if seen.get(t, 0) >= 2:
+                    self.s.steered += 1
+                    return SigLit(draw(st.sampled_from([y for y in self.p.types if seen.get(y, 0) < 2] or self.p.types)), Num(draw(st.integers(-9, 9))))
+                seen[t] = seen.get(t, 0) + 1
+            elif seen is not None and isinstance(x, SigLit) and isinstance(x.ty, str):
+                seen[x.ty] = seen.get(x.ty, 0) + 1
+            return x
+
+        l = leaf()
+        r = leaf() if draw(st.integers(0, 3)) == 0 else self.const_operand(draw)
         return Bin(draw(st.sampled_from(CMPS)), l, r)
 
     def expr(self, draw, depth, want_signal=False, excl=False):
@@ -224,9 +241,10 @@ class ExprGen:
         if k == 12 and self.allow_logic:
             op = draw(st.sampled_from(["&&", "||"]))
             if draw(st.booleans()):
-                e = self.simple_comparison(draw)
+                seen = {}
+                e = self.simple_comparison(draw, seen)
                 for _ in range(draw(st.integers(1, 2))):
-                    e = Bin(op, e, self.simple_comparison(draw))
+                    e = Bin(op, e, self.simple_comparison(draw, seen))
                 return e
             return Bin(op, self.expr(draw, depth - 1, want_signal=True, excl=True),
                        self.expr(draw, depth - 1, want_signal=True, excl=True))
@@ -263,6 +281,9 @@ def scalar_program(draw, early_virtual=False, linear=False, max_stmts=8, max_dep
     """Stateless program: inputs, int constants, then a DAG of Signal declarations."""
     sc = Scope()
     sc.steer = linear
+    from . import known as _known
+
+    sc.avoid_three_same = _known.active("three-same-signal-sources")
     pal = Palette(early_virtual)
     g = ExprGen(sc, pal, **profile)
     stmts = []
@@ -279,6 +300,7 @@ def scalar_program(draw, early_virtual=False, linear=False, max_stmts=8, max_dep
             ty = shared if same_type and draw(st.booleans()) else draw(st.sampled_from(pal.types))
             stmts.append(Decl("Signal", name, SigLit(ty, draw(num(small_int())))))
             sc.typed[name] = True
+            sc.type_of[name] = ty
         sc.signals.append(name)
     for _ in range(draw(st.integers(0, 2))):
         name = sc.fresh(draw, "k")
@@ -993,6 +1015,8 @@ def loop_case(draw, tier="quick", avoid_shadow=True):
                 return ListIter(tuple(Num(v) for v in vals)), vals
             a, b = draw(st.integers(-6, 6)), draw(st.integers(-6, 6))
             s = draw(st.sampled_from([None, 1, 2, 3, -1, -2, -3, 4, -5]))
+            if s is None and a > b:
+                s = -1  # the documentation does not say what a descending range without a step does
             it = Range(bound(a), bound(b), None if s is None else bound(s))
             vals = iteration_values(Range(Num(a), Num(b), None if s is None else Num(s)), {})
             info["triples"].append((a, b, s))
